@@ -22,8 +22,11 @@ def check(tier):
     rep.cov["traces_validated_against_impl"] = r["checked"]
     for s in r["samples"][:3]:
         rep.sample(s)
+    # what the included template sees (the caller's view plus the pairs, or the pairs alone with `only`): PongoRender's include rule,
+    # with the include placed inside every binding construct
+    import rendercommon
+    rendercommon.render_replay(rep, pvh, "MC_RenderC12", ["MC_RenderC12_incl.cfg"])
     rep.assumptions += ["computed (lazy) include names are rooted (the statement fixes 'literal = computed' for rooted names only)",
-                        "the include environment (with / only) is decided under C12",
                         "the recording loaders' own Abs implements the name rules (rooted: from the root; otherwise: the referring template's directory; '..' cannot leave the root)"]
     return rep.finish(
         rule="two loaders over the paths /a /d/a /c /d/c in every subset combination (quick: 6 subsets each; thorough: all 16x16), the root "
